@@ -44,6 +44,8 @@ def verify_function(key, sources, scenario=None, prune=True):
     res.span = (fn.lineno, fn.end_lineno)
     res.module_sha = sources.sha[key.split(".")[0]]
     eng = Engine(sources, solver_prune=prune)
+    from . import engine as _E
+    _E.LOOK_THROUGH_FINAL[0] = not c.opaque_final_heap
     eng.key, eng.contract = key, c
     eng.line_offset = 0
     eng.loop_ids = {id(l): i + 1 for i, l in enumerate(own_loops(fn))}
@@ -56,7 +58,7 @@ def verify_function(key, sources, scenario=None, prune=True):
         res.undecided_reason = f"unsupported: {e}"
     except RecursionError:
         res.undecided_reason = "engine recursion limit"
-    for a in list(c.ghost_at) + list(c.ghost_before):
+    for a in list(c.ghost_at) + list(c.ghost_before) + list(c.assert_at):
         if a not in eng.anchors_hit and res.undecided_reason is None:
             res.undecided_reason = f"ghost anchor {a!r} not found in the function (contract out of date)"
     # declared loop contracts must all correspond to a loop
@@ -107,8 +109,8 @@ def _run(eng, c, fn, scenario):
     st.old.old = None
     se = SpecEval(eng, st, pre_state=st.old)
     reqs = list(c.requires) + list((scenario or {}).get("requires", []))
-    for r in reqs:
-        st.assume(se.boolean(r))
+    for i_r, r in enumerate(reqs):
+        st.assume(se.boolean(r), tag=f"requires:{c.labels.get(r, i_r)}")
     # old state must see the facts assumed so far and the arrays materialised by the requires
     st.old = st.fork()
     st.old.old = None
@@ -207,7 +209,15 @@ def _pre_view(s):
 
 def frame_obligations(eng, c, st, node):
     mods = set()
+    gran = {}
     for m in eng.expand_modifies(c.modifies):
+        if "@" in m:
+            base, expr = m.split("@", 1)
+            ov = SpecEval(eng, _pre_view(st), pre_state=None).value(expr)
+            names = ["list.len", "list.I", "list.R", "list.S", "list.nan"] if base == "list" else [base, base + "#n"]
+            for nm in names:
+                gran.setdefault(nm, []).append(lift(ov).t)
+            continue
         if m == "list":
             mods |= {"list.len", "list.I", "list.R", "list.S", "list.nan"}
         else:
@@ -220,8 +230,9 @@ def frame_obligations(eng, c, st, node):
         if before is None or now.eq(before):
             continue
         o = z3.Int(f"o!{next(_fresh)}")
-        g = z3.ForAll([o], z3.Implies(z3.And(o >= 1, o <= alloc0), z3.Select(now, o) == z3.Select(before, o)))
-        eng.oblige(st, g, "frame", nm, node, text=f"{nm} of every pre-existing object is unchanged (not in modifies)")
+        excl = [o != x for x in gran.get(nm, [])]
+        g = z3.ForAll([o], z3.Implies(z3.And(o >= 1, o <= alloc0, *excl), z3.Select(now, o) == z3.Select(before, o)))
+        eng.oblige(st, g, "frame", nm, node, text=f"{nm} of every pre-existing object is unchanged" + (" except the objects named in modifies" if excl else " (not in modifies)"))
     for gname, now in st.ghost.items():
         if gname in mods:
             continue
